@@ -28,6 +28,7 @@ INVARIANT InvSolo
 PROPERTY PropIsolation
 PROPERTY PropAppendOnly
 PROPERTY PropNoResurrect
+PROPERTY PropLifeEnds
 PROPERTY PropLatest
 PROPERTY PropCommands
 PROPERTY PropListReadOnly
